@@ -80,6 +80,8 @@ def ropOf (j : Json) : ROp :=
     | "validate" => .validate
     | "readErr" => .readErr
     | "park" => .park ((a[1]?.bind (·.getNat?.toOption)).getD 0)
+    | "setCtx" => .setCtx ((a[1]?.bind (·.getNat?.toOption)).getD 0)
+    | "getCtx" => .getCtx ((a[1]?.bind (·.getNat?.toOption)).getD 0)
     | _ => .unpark ((a[1]?.bind (·.getNat?.toOption)).getD 0)
   | _ => .validate
 
@@ -93,7 +95,10 @@ def rfactsOf (j : Json) : RFacts :=
   let base := F.rfacts
   { order := fun c => orderOf (getStr o (cacheStr c)) (base.order c),
     errRead := match getStr o "errRead" with
-      | "underLock" => .underLock | "racy" => .racy | _ => base.errRead }
+      | "underLock" => .underLock | "racy" => .racy | _ => base.errRead,
+    ctxShared := match o.getObjVal? "ctxShared" with
+      | .ok (.bool b) => fun _ => b
+      | _ => base.ctxShared }
 
 /-! ### encoding -/
 
